@@ -317,6 +317,9 @@ package multiplex
 //@   ensures oversizeDatagramRefused: s.session.Unordered && len(in) > s.session.maxStreamUnitWrite ==> err != nil && n == 0 && s.writingFrame.Seq == old(s.writingFrame.Seq)
 //@   ensures allAccepted: err == nil ==> n == len(in)
 //@   ensures idKept: s.writingFrame.StreamID == old(s.writingFrame.StreamID) && s.writingFrame.Closing == old(s.writingFrame.Closing)
+//@   # C01/C13: every frame carries exactly the NEXT chunk of the input - it starts where the previous one ended,
+//@   # is not empty, is at most one frame payload long, and is the whole rest when the rest fits
+//@   atcall obfuscateAndSend requires nextChunkOfInput: aliases(s.writingFrame.Payload, in, n) && len(s.writingFrame.Payload) >= 1 && len(s.writingFrame.Payload) <= s.session.maxStreamUnitWrite && n + len(s.writingFrame.Payload) <= len(in) && (len(in) - n <= s.session.maxStreamUnitWrite ==> len(s.writingFrame.Payload) == len(in) - n)
 //@   modifies *
 //@   preserves Frame.StreamID, Frame.Closing, Stream.id, Stream.session, Stream.recvBuf, Session.sb, SessionConfig.MsgOnWireSizeLimit, Session.maxStreamUnitWrite, Session.streamSendBufferSize, Session.connReceiveBufferSize, SessionConfig.Unordered, SessionConfig.Valve, SessionConfig.Singleplex, Obfuscator.payloadCipher, switchboard.session, switchboard.valve
 //@   loop 0 invariant sesh: s.session != nil && closable(s.session)
